@@ -54,8 +54,18 @@ def doInit (st : St) (r : Option Xma) : St × String :=
   | some s => ({ st with x := some s, h := #[] }, s!"r=0 z={s.zone}" ++ dump st.limit (some s))
   | none => ({ st with x := none, h := #[] }, "r=-1" ++ dump st.limit none)
 
-def doAlloc (st : St) (s : Xma) (slot : Option Nat) (n : Nat) : St × String :=
-  match alloc s n with
+def dataZero (s : Xma) (o n : Nat) : Bool :=
+  match blkAt s o with
+  | some b => b.data.length == n && b.data.take keepMax == List.replicate (min n keepMax) 0
+  | none => false
+
+/-- what hawk_xma_dump reports: number of block lines, allocated and available bytes -/
+def dumpSummary (l : List Blk) : String :=
+  let a := l.foldl (fun (a : Nat × Nat) b => if b.free then (a.1, a.2 + b.size) else (a.1 + b.size, a.2)) (0, 0)
+  s!"r=dump blocks={l.length} alloc={a.1} avail={a.2}"
+
+def doAlloc (st : St) (s : Xma) (slot : Option Nat) (n : Nat) (zero : Bool := false) : St × String :=
+  match (if zero then calloc s n else alloc s n) with
   | .error _ => (st, "model-error")
   | .ok (none, s') =>
     let h := match slot with | none => st.h.push none | some _ => st.h
@@ -63,10 +73,12 @@ def doAlloc (st : St) (s : Xma) (slot : Option Nat) (n : Nat) : St × String :=
   | .ok (some o, s') =>
     let hnd := match slot with | none => st.h.size | some i => i
     let over := n > s'.zone
+    let zok := !zero || over || dataZero s' o n
     let s' := fillH s' o hnd (if over then 0 else n)
     let ent := some (o, if over then 0 else n)
     let h := match slot with | none => st.h.push ent | some i => st.h.setIfInBounds i ent
-    ({ st with x := some s', h := h }, (if over then "!OVERSIZE" else "") ++ s!"r={o + HDR}" ++ dump st.limit (some s'))
+    ({ st with x := some s', h := h }, (if over then "!OVERSIZE" else "") ++ s!"r={o + HDR}" ++ dump st.limit (some s') ++
+      (if zok then "" else " !NONZERO"))
 
 def step (st : St) (line : String) : St × String :=
   match words line, st.x with
@@ -80,6 +92,10 @@ def step (st : St) (line : String) : St × String :=
   | ["alloc", n], some s => match n.toNat? with
     | some n => doAlloc st s none n
     | none => (st, "bad-op")
+  | ["calloc", n], some s => match n.toNat? with
+    | some n => doAlloc st s none n true
+    | none => (st, "bad-op")
+  | ["dump"], some s => (st, dumpSummary s.blks ++ dump st.limit (some s))
   | ["realloc", i, n], some s => match i.toNat?, n.toNat? with
     | some i, some n =>
       if i ≥ st.h.size then (st, "bad-op") else
